@@ -21,6 +21,9 @@ func (sg *skGen) bytesOf(h int, omit bool) ([]byte, bool) {
 	}
 	var bs []byte
 	okp, _ := guard(func() { bs = encodeBytes(e, omit) })
+	if !okp {
+		sg.line("xpanic %d encode", h)
+	}
 	return bs, okp
 }
 
